@@ -36,7 +36,9 @@ class SI:
     def of(x):
         return x.e if isinstance(x, SI) else z3.IntVal(int(x))
 
-    def __add__(self, o): return SI(self.e + SI.of(o))
+    def __add__(self, o):
+        if isinstance(o, ARange): return NotImplemented
+        return SI(self.e + SI.of(o))
     __radd__ = __add__
     def __sub__(self, o): return SI(self.e - SI.of(o))
     def __rsub__(self, o): return SI(SI.of(o) - self.e)
@@ -50,6 +52,18 @@ class ARange:
 
     def mem(self, e):
         return z3.And(self.lo <= e, e < self.hi, (e - self.lo) % self.step == 0)
+
+    # numpy semantics of  scalar + arange  /  arange + scalar : every element is shifted
+    def __add__(self, k):
+        r = ARange(0, 0)
+        r.lo, r.hi, r.step = self.lo + SI.of(k), self.hi + SI.of(k), self.step
+        return r
+    __radd__ = __add__
+
+    def __sub__(self, k):
+        r = ARange(0, 0)
+        r.lo, r.hi, r.step = self.lo - SI.of(k), self.hi - SI.of(k), self.step
+        return r
 
     def count(self):
         return z3.If(self.hi > self.lo, (self.hi - self.lo + self.step - 1) / self.step, 0)
@@ -144,13 +158,14 @@ def get_sys(name):
         sidx = name != 'int'
         T = (lambda x: f'B{x}') if sidx else (lambda x: x)
         ss = core.new_system()
-        buses = [1, 2, 3]
-        lines = [dict(idx='L12' if sidx else 1, bus1=T(1), bus2=T(2)), dict(idx='L23' if sidx else 2, bus1=T(2), bus2=T(3)),
-                 dict(idx='L13' if sidx else 3, bus1=T(1), bus2=T(3))]
+        buses = [1, 2, 3] if sidx else [0, 1, 2]          # integer systems deliberately use the falsy index 0
+        b1, b2, b3 = buses
+        lines = [dict(idx='L12' if sidx else 0, bus1=T(b1), bus2=T(b2)), dict(idx='L23' if sidx else 1, bus1=T(b2), bus2=T(b3)),
+                 dict(idx='L13' if sidx else 2, bus1=T(b1), bus2=T(b3))]
         items = [('Bus', dict(idx=T(b), Vn=110.0, name=f'bus{b}')) for b in buses] + [('Line', d) for d in lines] + \
-                [('Slack', dict(idx='S' if sidx else 1, bus=T(1))), ('PV', dict(idx='G' if sidx else 2, bus=T(2), p0=0.3)),
-                 ('PQ', dict(idx='D3' if sidx else 1, bus=T(3), p0=0.4, q0=0.1)), ('PQ', dict(idx='D2' if sidx else 2, bus=T(2), p0=0.1, q0=0.0)),
-                 ('Shunt', dict(idx='C' if sidx else 1, bus=T(3), b=0.05))]
+                [('Slack', dict(idx='S' if sidx else 1, bus=T(b1))), ('PV', dict(idx='G' if sidx else 0, bus=T(b2), p0=0.3)),
+                 ('PQ', dict(idx='D3' if sidx else 0, bus=T(b3), p0=0.4, q0=0.1)), ('PQ', dict(idx='D2' if sidx else 1, bus=T(b2), p0=0.1, q0=0.0)),
+                 ('Shunt', dict(idx='C' if sidx else 0, bus=T(b3), b=0.05))]
         if sidx:
             # devices of each model are entered in reverse order (buses first: other devices refer to them)
             bus_items = [i for i in items if i[0] == 'Bus'][::-1]
@@ -230,6 +245,8 @@ def h_tagflow(name):
                                 AND(EQ(var.v[k], tag, tol=0.0), EQ(m.get(src=vn, idx=idx, attr='v'), tag, tol=0.0))))
                     if vn in grp.common_vars:
                         out.append((f'{mn}.{vn}: group view agrees', EQ(gget(grp, src=vn, idx=idx, attr='v'), tag, tol=0.0)))
+                        out.append((f'{mn}.{vn}: group view with optional lookup (allow_none) agrees',
+                                    EQ(gget(grp, src=vn, idx=idx, attr='v', allow_none=True, default=0.0), tag, tol=0.0)))
             for vn, var in m.cache.vars_ext.items():
                 if var.n == 0 or var.indexer is None:
                     continue
